@@ -217,7 +217,8 @@ def corruptions(schema, doc, data):
         nn = t.of_type if is_non_null_type(t) else t
         custom = is_leaf_type(nn) and not is_enum_type(nn) and nn.name not in BUILTIN and nn.name not in CONFIGURED
         if cur is not None:
-            yield ("null", path, set_at(data, path, None), True if (is_non_null_type(t) and not st.conditional) else None)
+            # an unconfigured custom scalar is declared Any by the statement's own converse clause, and None is a valid Any: nothing demanded
+            yield ("null", path, set_at(data, path, None), True if (is_non_null_type(t) and not st.conditional and not custom) else None)
         if st.in_dict:
             yield ("remove", path, set_at(data, path, None, remove=True), True if not st.conditional else None)
         if cur is None or custom:
